@@ -61,9 +61,11 @@ Disconnect ==
   /\ arb' = "off" /\ held' = <<>>
   /\ UNCHANGED <<open, gen>>
 
-Resolve(i) ==
+(* keep: the arbiter answers with the value the key holds at that moment (it decides for the stored value); *)
+(* otherwise with a value of its own                                                                          *)
+Resolve(i, keep) ==
   /\ arb = "on" /\ i \in DOMAIN held
-  /\ Log([c |-> Sess, op |-> "resolve_nth", nth |-> i - 1])
+  /\ Log([c |-> Sess, op |-> "resolve_nth", nth |-> i - 1, keep |-> keep])
   /\ open' = [open EXCEPT ![held[i][1]] = SelectSeq(@, LAMBDA r : r # held[i][2])]
   /\ held' = [j \in 1..(Len(held) - 1) |-> IF j < i THEN held[j] ELSE held[j + 1]]
   /\ UNCHANGED <<arb, gen>>
@@ -74,7 +76,7 @@ Next ==
   /\ Len(hist) < MaxLen
   /\ \/ \E k \in Keys, s \in BOOLEAN : Write(k, s)
      \/ Register \/ Disconnect
-     \/ \E i \in 1..(MaxQueue * 2) : Resolve(i)
+     \/ \E i \in 1..(MaxQueue * 2), keep \in BOOLEAN : Resolve(i, keep)
      \/ \E k \in Keys : Read(k)
 
 Spec == Init /\ [][Next]_vars
